@@ -156,11 +156,27 @@ def eval_case(ctx, case):
 
     text, targets, links, slugs, heads = build(case)
     detail = {"text": text}
+    front_end = case.get("front_end", "docutils")
     try:
-        doc, wtext = drive.parse(text, myst_enable_extensions=EXT, myst_heading_anchors=case["anchors"], doctitle_xform=False)
+        if front_end == "sphinx":
+            b = drive.SphinxBuild({"index.md": text}, conf={"myst_enable_extensions": EXT, "myst_heading_anchors": case["anchors"], "keep_warnings": True}, builder="dummy")
+            try:
+                b.build()
+                recs = [r for r in b.records if r["type"] == "myst" and r["subtype"] == "xref_missing"]
+                doc = b.resolved("index")
+                lines = []
+                for r in recs:
+                    m = re.search(r":(\d+)$", str(r["location"] or ""))
+                    lines.append(f"index.md:{m.group(1) if m else ''}: (WARNING/2) {r['msg']} [myst.xref_missing]")
+                wtext = "\n".join(lines)
+            finally:
+                b.close()
+        else:
+            doc, wtext = drive.parse(text, myst_enable_extensions=EXT, myst_heading_anchors=case["anchors"], doctitle_xform=False)
     except Exception as e:  # noqa: BLE001
         ctx.count("no_document:" + type(e).__name__)
         return False
+    ctx.count("front_end:" + front_end)
     # index: marker word -> Text nodes
     index = {}
     for t in doc.findall(nodes.Text):
@@ -226,13 +242,25 @@ def eval_case(ctx, case):
             exp_title = title.replace("`", "")
         text_children = [c for c in ref.children if not isinstance(c, nodes.system_message)]
         shown = "".join(c.astext() for c in text_children)
+        if how == "missing" and front_end == "sphinx" and (frag.lower() in targets or frag.lower() in slugs):
+            ctx.count("sphinx_case_variant_not_judged")  # Sphinx labels are case-insensitive by Sphinx' own rule
+            for i, w in enumerate(warn_recs):
+                if repr(frag) in w["msg"] and i not in used_warn:
+                    used_warn.add(i)
+                    break
+            continue
         if how == "missing":
             missing += 1
-            ws = [i for i, w in enumerate(warn_recs) if repr(frag) in w["msg"] and i not in used_warn and w["line"] == ref.line]
+            ref_line = ref.line if ref.line is not None else (lk["line"] if lk["truth_line"] else None)
+            ws = [i for i, w in enumerate(warn_recs) if repr(frag) in w["msg"] and i not in used_warn and (ref_line is None or w["line"] == ref_line)]
+            if ref_line is None and len(ws) > 1:
+                # several links to the same missing target: leave the warnings that carry another link's known line to that link
+                claimed = {l2["line"] for l2 in links if l2 is not lk and l2["frag"] == frag and l2["truth_line"]}
+                ws = [i for i in ws if warn_recs[i]["line"] not in claimed] or ws
             if not ws:
                 ws = [i for i, w in enumerate(warn_recs) if repr(frag) in w["msg"] and i not in used_warn]
                 if ws:
-                    ctx.violation("missing:warning-line", f"xref_missing for #{frag} reports line {warn_recs[ws[0]]['line']}, the reference is on line {ref.line}", case, d)
+                    ctx.violation("missing:warning-line", f"xref_missing for #{frag} reports line {warn_recs[ws[0]]['line']}, the reference is on line {ref_line}", case, d)
                 else:
                     ctx.violation("missing:no-warning", f"link to the missing target #{frag} produced no [myst.xref_missing] warning (refid={ref.get('refid')!r})", case, d)
             if ws:
@@ -240,7 +268,7 @@ def eval_case(ctx, case):
                 if lk["truth_line"] and warn_recs[ws[0]]["line"] != lk["line"]:
                     ctx.violation("missing:warning-line", f"xref_missing for #{frag} reports line {warn_recs[ws[0]]['line']}, the link is on line {lk['line']}", case, d)
             if lk["explicit"]:
-                if lk["tmark"] not in shown or not any(isinstance(c, nodes.emphasis) for c in ref.children):
+                if lk["tmark"] not in shown or not list(ref.findall(nodes.emphasis)):
                     ctx.violation("missing:text-lost", f"explicit text of the unresolved link #{frag} was not kept: {shown!r}", case, d)
             continue
         resolved += 1
@@ -260,7 +288,7 @@ def eval_case(ctx, case):
             continue
         ctx.count(f"resolved:{how}:{lk['spelling']}:{lk['pos']}")
         if lk["explicit"]:
-            if lk["tmark"] not in shown or not any(isinstance(c, nodes.emphasis) for c in ref.children):
+            if lk["tmark"] not in shown or not list(ref.findall(nodes.emphasis)):
                 ctx.violation("text:explicit-lost", f"explicit link text not preserved: {shown!r}", case, d)
         else:
             want_text = exp_title if exp_title else "#" + frag
@@ -333,6 +361,15 @@ def make_case(R):
 def run_shard(ctx):
     R = ctx.rng
     n = 2500 if ctx.tier == "quick" else 100000
+    for i in range(25 if ctx.tier == "quick" else 1500):
+        case = make_case(R)
+        case["front_end"] = "sphinx"
+        nt = eval_case(ctx, case)
+        ctx.case(repr(case), bool(nt))
+        if i == 0:
+            ctx.sample(case)
+        if ctx.time_left() < ctx.budget_s * 0.7:
+            break
     for i in range(n):
         case = make_case(R)
         nt = eval_case(ctx, case)
